@@ -139,6 +139,89 @@ theorem imhStep_fst [Sub α] [LT α] [DecidableLT α] (ratio : σ → α) (last 
     · left; simp [imhStep, h]
     · right; simp [imhStep, h]
 
+/-! ### a density that vanishes on part of the proposal's support (`imhStepS`) -/
+
+/-- where the density is positive on the whole support of the proposal both variants are the chain of the
+earlier theorems -/
+theorem imhChainS_total (poison : Bool) (ratio : σ → Option α) (r : σ → α) (h : ∀ b, ratio b = some (r b)) :
+    ∀ (steps : List (σ × Option α)) (last : σ) (lastR : α),
+      imhChainS poison ratio last (.fin lastR) steps = imhChain r last lastR steps := by
+  intro steps
+  induction steps with
+  | nil => intro _ _; rfl
+  | cons s rest ih =>
+    intro last lastR
+    obtain ⟨c, lu⟩ := s
+    simp only [imhChainS, imhStepS, h c, imhChain, imhStep]
+    rw [ih]
+
+/-- repaired variant, one step: the carried log-ratio is the log-ratio of the new state, which is the proposal
+or the previous state -/
+theorem imhStepS_fixed (ratio : σ → Option α) (last : σ) (r : α) (h : ratio last = some r) (cur : σ)
+    (lu : Option α) :
+    ∃ r', (imhStepS false ratio last (.fin r) cur lu).2 = .fin r' ∧
+      ratio (imhStepS false ratio last (.fin r) cur lu).1 = some r' ∧
+      ((imhStepS false ratio last (.fin r) cur lu).1 = cur ∨
+        (imhStepS false ratio last (.fin r) cur lu).1 = last) := by
+  unfold imhStepS
+  cases hc : ratio cur with
+  | none => exact ⟨r, rfl, h, Or.inr rfl⟩
+  | some cr =>
+    cases lu with
+    | none => exact ⟨cr, rfl, hc, Or.inl rfl⟩
+    | some l =>
+      by_cases hl : l < cr - r
+      · simp only [hl, decide_true, if_true]
+        exact ⟨cr, rfl, hc, Or.inl trivial⟩
+      · simp only [hl, decide_false, Bool.false_eq_true, if_false]
+        exact ⟨r, rfl, h, Or.inr trivial⟩
+
+/-- repaired variant: after any steps the carried log-ratio is the log-ratio of the state the chain is in -/
+theorem imhAfterS_fixed_inv (ratio : σ → Option α) :
+    ∀ (steps : List (σ × Option α)) (last : σ) (r : α), ratio last = some r →
+      ∃ r', (imhAfterS false ratio last (.fin r) steps).2 = .fin r' ∧
+        ratio (imhAfterS false ratio last (.fin r) steps).1 = some r' := by
+  intro steps
+  induction steps with
+  | nil => intro last r h; exact ⟨r, rfl, h⟩
+  | cons s rest ih =>
+    intro last r h
+    obtain ⟨c, lu⟩ := s
+    obtain ⟨r', h2, h1, _⟩ := imhStepS_fixed ratio last r h c lu
+    simp only [imhAfterS]
+    rw [h2]
+    exact ih _ r' h1
+
+/-- repaired variant: every state of the chain lies in the density's support -/
+theorem imhChainS_fixed_support (ratio : σ → Option α) :
+    ∀ (steps : List (σ × Option α)) (last : σ) (r : α), ratio last = some r →
+      ∀ s ∈ imhChainS false ratio last (.fin r) steps, (ratio s).isSome = true := by
+  intro steps
+  induction steps with
+  | nil => intro _ _ _ s hs; cases hs
+  | cons x rest ih =>
+    intro last r h s hs
+    obtain ⟨c, lu⟩ := x
+    obtain ⟨r', h2, h1, _⟩ := imhStepS_fixed ratio last r h c lu
+    simp only [imhChainS, List.mem_cons] at hs
+    rcases hs with rfl | hs
+    · simp [h1]
+    · rw [h2] at hs
+      exact ih _ r' h1 s hs
+
+/-- pinned variant: once the carried ratio is NaN nothing moves -/
+theorem imhChainS_nan (poison : Bool) (ratio : σ → Option α) :
+    ∀ (steps : List (σ × Option α)) (last : σ),
+      imhChainS poison ratio last .nan steps = List.replicate steps.length last := by
+  intro steps
+  induction steps with
+  | nil => intro _; rfl
+  | cons s rest ih =>
+    intro last
+    obtain ⟨c, lu⟩ := s
+    simp only [imhChainS, imhStepS, List.length_cons, List.replicate_succ]
+    rw [ih]
+
 end IMH
 
 end PdtVerif.Estimators
